@@ -3,6 +3,7 @@ package rules
 import (
 	"fmt"
 	"go/token"
+	"go/types"
 	"strings"
 
 	"golang.org/x/tools/go/ssa"
@@ -190,7 +191,7 @@ func c09ForkJoin(c *ctx) {
 		// --- what does the goroutine signal with?
 		doneWG := wgDoneTarget(s.cl)
 		sendCh := ownChannelSend(s)
-		cb := callbackParamCalled(s.cl)
+		cb, cbLocal := callbackParamCalled(s)
 		switch {
 		case doneWG != nil:
 			if ok, why := callsOnAllPaths(s.cl, func(cs ssa.CallInstruction) bool {
@@ -232,7 +233,7 @@ func c09ForkJoin(c *ctx) {
 			// completion is signalled through a callback parameter of the enclosing function (dln verifier):
 			// the callback must be invoked exactly once on every path; the registrations are checked at the callers
 			if ok, why := callsOnAllPaths(s.cl, func(cs ssa.CallInstruction) bool {
-				return !cs.Common().IsInvoke() && resolveObj(cs.Common().Value) == ssa.Value(cb)
+				return !cs.Common().IsInvoke() && (resolveObj(cs.Common().Value) == ssa.Value(cb) || cbLocal != nil && core.Strip(cs.Common().Value) == cbLocal)
 			}); !ok {
 				bad += "the completion callback is not invoked exactly once on every path of the goroutine (" + why + "); "
 			}
@@ -647,17 +648,40 @@ func sameLenTerm(a, b *T) bool {
 
 func allReceivesGuardedAlike(a, b *core.Loop) bool { return false }
 
-// callbackParamCalled: the goroutine calls a function-typed parameter of its enclosing function.
-func callbackParamCalled(cl *ssa.Function) *ssa.Parameter {
+// callbackParamCalled: the goroutine calls a function-typed parameter of its enclosing function — captured
+// by the closure, or handed to a named goroutine body as an argument of the go statement (then `local`
+// is the body's own parameter through which it is called).
+func callbackParamCalled(s *goSite) (cb *ssa.Parameter, local ssa.Value) {
+	cl := s.cl
 	for _, cs := range core.Calls(cl) {
 		if cs.Common().IsInvoke() {
 			continue
 		}
+		if cl.Parent() == nil {
+			q, ok := core.Strip(cs.Common().Value).(*ssa.Parameter)
+			if !ok || q.Parent() != cl {
+				continue
+			}
+			if _, isFn := q.Type().Underlying().(*types.Signature); !isFn {
+				continue
+			}
+			for k, qq := range cl.Params {
+				if qq == q && k < len(s.g.Call.Args) {
+					if p, isP := core.Strip(s.g.Call.Args[k]).(*ssa.Parameter); isP && p.Parent() == s.fn {
+						// only a callback that reports a result (func(bool)), not an accessor handed in
+						if sig := q.Type().Underlying().(*types.Signature); sig.Results().Len() == 0 {
+							return p, q
+						}
+					}
+				}
+			}
+			continue
+		}
 		if p, ok := resolveObj(cs.Common().Value).(*ssa.Parameter); ok && p.Parent() == cl.Parent() {
-			return p
+			return p, nil
 		}
 	}
-	return nil
+	return nil, nil
 }
 
 // callbackRegistrations: at every call site of `top` (which starts a goroutine that invokes callback cb
